@@ -41,8 +41,15 @@ SHAPING = {'add_field', 'add_computed', 'set_type', 'unpivot', 'concatenate', 'd
 
 @st.composite
 def cases_(draw):
-    pkg = draw(gp.input_package(2, 3, types=TYPES))
-    prog = draw(gp.programs(1, 6, kinds=KINDS, pkg=pkg, favour_mutators=False))
+    if gen.rare(draw, 200):
+        # focused class 'resource-name arithmetic': auto-named inputs (res_1..res_3), deletions that leave gaps, then
+        # steps that append or create resources and have to find free names
+        pkg = draw(gp.input_package(3, 3, types=TYPES))
+        prog = draw(gp.programs(2, 5, kinds=['delete_resource', 'sources', 'iterable', 'delete_resource', 'duplicate',
+                                             'concatenate', 'sources', 'iterable'], pkg=pkg, favour_mutators=False))
+    else:
+        pkg = draw(gp.input_package(2, 3, types=TYPES))
+        prog = draw(gp.programs(1, 6, kinds=KINDS, pkg=pkg, favour_mutators=False))
     return {'pkg': prog['pkg'], 'steps': prog['steps']}
 
 
